@@ -29,3 +29,10 @@ def fill(C, PENDING):
       "Text from the built-in ISO patterns is read back by the stdlib and stdlib ISO text is parsed by the patterns; widths/fraction/Z shape checked by "
       "anchored regexes. All ordinals (thorough) and all whole-minute offsets are enumerated; times/date-times/instants are sampled.",
       "Python 3.12 fromisoformat semantics (fractions truncated to microseconds) as the independent ISO-8601 implementation.", "§3 C17")
+
+    C("C16", "exploration", "runtime monitoring: independent week-1 model + round-trip/advance monitors + differential against date.isocalendar",
+      "71 week-year rules are executed in every calendar around year boundaries and range ends; regular rules are compared with an independently "
+      "written week-1 model, all rules for round trip, week range and weekly advance; the ISO rule against date.isocalendar (all ordinals in "
+      "thorough); weekday navigation against modular arithmetic; n-th weekday of month against enumeration with datetime.date.",
+      "Trusts datetime.date.isocalendar/isoweekday and the harness's reading of the regular-rule definition; BCL-style irregular rules are only "
+      "checked for self-consistency.", "§3 C16")
